@@ -254,6 +254,17 @@ impl Fam {
                 let s = site(&mut fam, &mut sites, "m", t, "mem_load");
                 b += &format!("    i32.const {} drop i32.const 0 i32.load {} drop\n", SITE as i64 + s, i);
                 if full {
+                    {
+                        // memory.copy carries two memory indices: one site per index (dst first)
+                        for (j, &t2) in mems.iter().enumerate() {
+                            let s1 = site(&mut fam, &mut sites, "m", t, "mem_copy_dst");
+                            let s2 = site(&mut fam, &mut sites, "m", t2, "mem_copy_src");
+                            b += &format!(
+                                "    i32.const {} drop i32.const {} drop i32.const 0 i32.const 0 i32.const 0 memory.copy {} {}\n",
+                                SITE as i64 + s1, SITE as i64 + s2, i, j
+                            );
+                        }
+                    }
                     let mut op = |sk: &str, code: String| {
                         let s = site(&mut fam, &mut sites, "m", t, sk);
                         b += &format!("    i32.const {} drop {}\n", SITE as i64 + s, code);
@@ -262,7 +273,6 @@ impl Fam {
                     op("mem_size", format!("memory.size {} drop", i));
                     op("mem_grow", format!("i32.const 0 memory.grow {} drop", i));
                     op("mem_fill", format!("i32.const 0 i32.const 0 i32.const 0 memory.fill {}", i));
-                    op("mem_copy", format!("i32.const 0 i32.const 0 i32.const 0 memory.copy {} {}", i, i));
                     if has_data {
                         op("mem_init", format!("i32.const 0 i32.const 0 i32.const 0 memory.init {} 0", i));
                     }
@@ -451,6 +461,13 @@ fn const_expr_ops<'a>(e: &wasmparser::ConstExpr<'a>) -> Vec<Operator<'a>> {
 }
 
 /// the (space, index) an operator embeds, if any
+fn op_refs(op: &Operator) -> Vec<(char, u32)> {
+    if let Operator::MemoryCopy { dst_mem, src_mem } = op {
+        return vec![('m', *dst_mem), ('m', *src_mem)];
+    }
+    op_ref(op).into_iter().collect()
+}
+
 fn op_ref(op: &Operator) -> Option<(char, u32)> {
     use Operator::*;
     Some(match op {
@@ -656,7 +673,7 @@ pub fn alpha(reg: &Registry, bytes: &[u8]) -> Result<Obs, String> {
             .collect::<Result<Vec<_>, _>>()
             .map_err(|e| e.to_string())?;
         let mut tok = -1;
-        let mut pending: Option<i64> = None;
+        let mut pending: std::collections::VecDeque<i64> = std::collections::VecDeque::new();
         let mut i = 0;
         while i < ops.len() {
             if let Operator::I32Const { value } = ops[i] {
@@ -668,16 +685,17 @@ pub fn alpha(reg: &Registry, bytes: &[u8]) -> Result<Obs, String> {
                         i += 2;
                         continue;
                     } else if value >= SITE && value < SITE + 100_000 {
-                        pending = Some((value - SITE) as i64);
+                        pending.push_back((value - SITE) as i64);
                         i += 2;
                         continue;
                     }
                 }
             }
-            if let Some(s) = pending {
-                if let Some((sp, idx)) = op_ref(&ops[i]) {
-                    raw_sites.push((s, sp, idx));
-                    pending = None;
+            if !pending.is_empty() {
+                for (sp, idx) in op_refs(&ops[i]) {
+                    if let Some(s) = pending.pop_front() {
+                        raw_sites.push((s, sp, idx));
+                    }
                 }
             }
             i += 1;
